@@ -417,6 +417,10 @@ class Corpus:
         for r in ("i64", "i128", "isize"):
             wide = sorted({rng.randint(-(1 << 63), (1 << 63) - 1) for _ in range(14)} | {-(1 << 63) + 1, (1 << 63) - 2, -1, 0})
             self.add_decl("R", r, wide, ["table", "match"], note="wide spread over i64")
+        # discriminants congruent modulo a narrower width: a sort key narrowed by a cast ties them
+        self.add_decl("R", "i64", [k * (1 << 32) + 0x10 for k in range(-3, 4)], ["table", "match"], note="congruent mod 2^32")
+        self.add_decl("R", "i32", [k * (1 << 16) + 7 for k in range(-4, 5)], ["table", "auto"], note="congruent mod 2^16")
+        self.add_decl("R", "i16", [k * (1 << 8) + 3 for k in range(-5, 6)], ["match", "table"], note="congruent mod 2^8")
         self.add_decl("R", "u64", sorted({rng.randint(0, (1 << 63) - 1) for _ in range(14)} | {0, (1 << 63) - 1}), ["auto", "table"],
                       note="wide spread u64")
         self.add_decl("R", "i32", sorted({rng.randint(-(1 << 31), (1 << 31) - 1) for _ in range(14)} | {-(1 << 31), (1 << 31) - 1}),
@@ -467,7 +471,9 @@ class Corpus:
         self.add_decl("B", "u8", list(range(0, 256)), ["table", "auto"], note="u8 full", iter_count=3, str_limit=0)
         self.add_decl("B", "i8", [v for v in range(-128, 128) if v != 3], ["table", "match"], note="i8 255 one hole",
                       iter_count=3, str_limit=0)
-        self.add_decl("B", "i8", list(range(-128, 128)), ["table", "alt"], note="i8 full gapless", iter_count=3, str_limit=0)
+        self.add_decl("B", "i8", list(range(-128, 128)), ["table", "alt", "match"], note="i8 full gapless", iter_count=3, str_limit=0)
+        self.add_decl("B", "i8", list(range(-100, 50)), ["match", "table"], note="i8 150 gapless negative min", iter_count=3, str_limit=0)
+        self.add_decl("B", "i16", list(range(-32768, -32768 + 300)), ["match", "table"], note="i16 300 gapless at type MIN", iter_count=3, str_limit=0)
         self.add_decl("B", "i16", list(range(-200, 100)) + list(range(1000, 1100)), ["table", "match"],
                       note="i16 400 variants 2 runs", iter_count=3, str_limit=0)
         self.add_decl("B", "u16", list(range(65000, 65536)), ["table", "auto"], note="u16 top 536", iter_count=3, str_limit=0)
@@ -511,7 +517,54 @@ class Corpus:
             vals = runs_to_vals(runs)
             self.add_decl("A", r, vals, ["subset", "subset"], note="auto subset", iter_count=4, str_limit=2)
 
+    # --- custom names / visibilities / struct names: glue calls the items under the requested names,
+    #     the structural correspondence checks the emitted visibilities
+    def fam_named(self):
+        rng = self.rng
+        n = 24 if self.tier == "thorough" else 8
+        nameable = ["as_str", "from_str", "into", "MAX", "MIN", "next", "next_back", "try_from", "iter", "names", "range"]
+        for i in range(n):
+            r = rng.choice(["i8", "u8", "i16", "u32", "i64", "usize"])
+            runs = random_runs(rng, r, rng.choice([1, 2, 3]), 3, span=40 if REPRS[r][1] > 8 else None)
+            vals = runs_to_vals(runs)
+            gapless = len(runs) == 1
+            kind = rng.choice(["match", "table", "auto"])
+            feats = []
+            for f, params in config(kind, gapless, rng):
+                params = dict(params)
+                if f in nameable:
+                    if rng.random() < 0.6:
+                        params["name"] = ("K_" + f.upper()) if f in ("MIN", "MAX") else f"my_{f}_{i}"
+                    if rng.random() < 0.6:
+                        params["vis"] = rng.choice(["", "pub(crate)", "pub"])
+                    if f in ("iter", "names") and rng.random() < 0.6:
+                        params["struct_name"] = f"My{f.capitalize()}{i}"
+                feats.append((f, params))
+            ents = entries_for(rng, vals, rename_p=0.2)
+            s = mk_subject(self.sid("V"), r, ents, feats, rng, split=rng.choice([1, 2]), family="V",
+                           note=f"custom names/vis cfg={kind}", vis=rng.choice(["pub", "pub(crate)", "pub"]))
+            self.add(s, iter_count=3, str_limit=2)
+
+    # --- sorted(value) / sorted(name) on declarations that are sorted: everything must still work
+    def fam_sorted(self):
+        rng = self.rng
+        n = 12 if self.tier == "thorough" else 5
+        for i in range(n):
+            r = rng.choice(["i8", "u16", "i32", "i64", "u8"])
+            runs = random_runs(rng, r, rng.choice([1, 2, 4]), 4, span=60 if REPRS[r][1] > 8 else None)
+            vals = runs_to_vals(runs)
+            gapless = len(runs) == 1
+            kind = ["table", "match", "auto"][i % 3]
+            which = [["value"], ["name"], ["name", "value"]][i % 3]
+            ids = sorted(f"V{j:03d}" for j in range(len(vals)))
+            ents = [(d, ids[j], None) for j, d in enumerate(vals)]       # ascending by value and by name
+            feats = config(kind, gapless, rng) + [("sorted", {w: None for w in which})]
+            s = mk_subject(self.sid("S"), r, ents, feats, rng, split=rng.choice([1, 2]), family="S", note=f"sorted({','.join(which)}) cfg={kind}")
+            self.add(s, iter_count=3, str_limit=1)
+
     def build(self):
+        self.fam_sorted()
+        self.fam_named()
         self.fam_regressions()
         self.fam_small_scope()
         self.fam_general()
